@@ -47,8 +47,15 @@ BlockProg(ks, a, mask, tv) ==
       sq == ToSeq(chosen)
   IN [nodes |-> [i \in 1..n |-> MkNode(ks[i], i)],
       edges |-> [q \in 1..Len(sq) |-> [s |-> sq[q][1], sv |-> "x", t |-> sq[q][2], tv |-> tv, w |-> WeightOf(q), tm |-> FALSE]]]
+(* every node is a target exactly once; its source is sigma(target): sorted source lists with a duplicate and a gap *)
+SrcMapProg(ks, sigma, tv) ==
+  [nodes |-> [n \in 1..Len(ks) |-> MkNode(ks[n], n)],
+   edges |-> [t \in 1..Len(sigma) |-> [s |-> sigma[t], sv |-> "x", t |-> t, tv |-> tv, w |-> WeightOf(t), tm |-> FALSE]]]
+DupGap(n, at) == [t \in 1..n |-> IF t = at + 1 THEN at ELSE t]          \* source at feeds targets at and at+1, source at+1 nothing
+SrcMaps(n) == {DupGap(n, 1), DupGap(n, n \div 2), [t \in 1..n |-> IF t = 2 THEN 3 ELSE IF t = 3 THEN 2 ELSE IF t = 5 THEN 4 ELSE t]}
 C04Progs(ns) ==
   UNION { { PermProg(KindPattern(n, pat), pi, tv) : pi \in Perms(n), pat \in {<<"L">>, <<"L", "S">>}, tv \in {"u", "v"} } : n \in ns }
+  \cup UNION { { SrcMapProg(KindPattern(n, <<"L">>), sg, tv) : sg \in SrcMaps(n), tv \in {"u", "v"} } : n \in {m \in ns : m >= 5} }
   \cup UNION { { BlockProg(KindPattern(n, pat), a, mask, "u") : a \in {1, 2, 3}, pat \in {<<"L">>, <<"S", "L">>},
                                                            mask \in {<<1>>, <<1, 0>>, <<1, 0, 0, 1, 0>>} } : n \in {4, 6} }
 (* ---- C16: PopulationTemplate / Connectivity circuits and their expansion into nodes and scalar edges ---- *)
